@@ -88,10 +88,148 @@ type c09Run struct {
 	v      *vlib.Verdict
 	mu     sync.Mutex
 	p      *vPair
-	live   [2][2]map[byte]string // [side][rel] ids of locally created tubes that are not closed yet
+	live   [2][2]map[byte]c09Live // [side][rel] ids of locally created tubes that are not closed yet
 	seen   map[string]int        // incarnation -> times offered by Accept
 	opened map[string]bool       // reliable incarnations whose creator got as far as writing the header
+	idOf   map[string]byte       // incarnation -> the tube id its creator was given
+	born   map[byte][]time.Duration // tube id -> times (since the network started) at which its incarnations began to be created
+	pkts   map[byte][]c09Pkt        // tube id -> every packet that carried it: when sent, when its copies are delivered
 	wg     sync.WaitGroup
+}
+
+type c09Pkt struct {
+	sent time.Duration
+	dlv  []time.Duration
+}
+
+// crossed: some packet carrying tube id was sent before one of the id's incarnations began to be created and was
+// (also) delivered afterwards, and before now: a frame that outlived its incarnation has reached a successor's end.
+// Frames carry no incarnation number, so nothing can tell it apart from the successor's own frames.
+func (r *c09Run) crossed(id byte) (string, bool) {
+	now := r.p.Net.Elapsed()
+	r.mu.Lock()
+	defer r.mu.Unlock()
+	for _, b := range r.born[id] {
+		for _, p := range r.pkts[id] {
+			if p.sent >= b {
+				continue
+			}
+			for _, d := range p.dlv {
+				if d >= b && d <= now {
+					return fmt.Sprintf("a packet for id %d sent at %v was delivered at %v, after the incarnation created at %v had begun", id, p.sent, d, b), true
+				}
+			}
+		}
+	}
+	return "", false
+}
+
+// source finds the incarnation whose creator (or acceptor) wrote the given bytes: by their header if they start with
+// one, else by looking the first bytes up in everything any incarnation of the case writes (keyed streams).
+func (r *c09Run) source(b []byte) (string, bool) {
+	if h, ok := c09Parse(b); ok {
+		return c09Key(h.side, h.worker, h.gen), true
+	}
+	if len(b) < 12 {
+		return "", false
+	}
+	probe := b
+	if len(probe) > 24 {
+		probe = probe[:24]
+	}
+	for wi, w := range r.c.Workers {
+		for gi, g := range w.Gens {
+			key := c09Key(w.Side, wi, gi)
+			if w.Rel {
+				if bytes.Contains(vlib.Fill(g.Seed, g.Body), probe) || bytes.Contains(vlib.Fill(g.Seed+1, g.Reply), probe) {
+					return key, true
+				}
+				continue
+			}
+			for mi, n := range g.Msgs {
+				if bytes.Contains(c09Msg(w.Side, wi, gi, g.Type, mi, n, g.Seed), probe) {
+					return key, true
+				}
+			}
+		}
+	}
+	return "", false
+}
+
+// failContent reports content that does not belong on the tube with identifier id (expected: incarnation expect).
+// When the content is proven to stem from ANOTHER incarnation that held the SAME identifier, the signature names that
+// root cause (tube frames carry no incarnation) whatever the symptom; content of a tube with another identifier, and
+// content nobody wrote, keep symptom-shaped signatures.
+func (r *c09Run) failContent(sym string, rel bool, id byte, expect string, foreign []byte, whole [][]byte, f string, a ...any) {
+	class := "unreliable"
+	if rel {
+		class = "reliable"
+	}
+	src, ok := r.source(foreign)
+	if (!ok || src == expect) && len(whole) > 0 {
+		// the foreign part may begin inside a header that happens to share its first bytes with the expected one
+		src, ok = r.source(whole[0])
+	}
+	if ok && src != expect {
+		r.mu.Lock()
+		sid, known := r.idOf[src]
+		r.mu.Unlock()
+		if known && sid == id {
+			r.fail("C09:incarnations-of-one-id-confused:"+class, "[%s; written by %s, which held id %d too] "+f, append([]any{sym, src, id}, a...)...)
+			return
+		}
+		if known {
+			r.fail("C09:content-of-a-tube-with-another-id:"+class, "[%s; written by %s on tube id %d, delivered on id %d] "+f, append([]any{sym, src, sid, id}, a...)...)
+			return
+		}
+	}
+	if why, ok := r.crossed(id); ok {
+		r.fail("C09:incarnations-of-one-id-confused:"+class, "[%s; %s] "+f, append([]any{sym, why}, a...)...)
+		return
+	}
+	if os.Getenv("VERIF_VERBOSE") != "" {
+		n := len(foreign)
+		if n > 64 {
+			n = 64
+		}
+		fmt.Printf("C09-DEBUG sym=%s id=%d expect=%s src=%q ok=%v foreign[%d]=%x\n", sym, id, expect, src, ok, len(foreign), foreign[:n])
+	}
+	r.fail(sym, f, a...)
+}
+
+func c09Diff(got, want []byte) int {
+	for i := range got {
+		if i >= len(want) || got[i] != want[i] {
+			return i
+		}
+	}
+	return len(got)
+}
+
+type c09Live struct {
+	key string
+	tb  Tube
+}
+
+// c09Closed: WaitForClose on the tube would return at once (the muxer's reaper may then already have released the id).
+func c09Closed(tb Tube) bool {
+	var a, b chan struct{}
+	switch t := tb.(type) {
+	case *Reliable:
+		a, b = t.closed, t.initDone
+	case *Unreliable:
+		a, b = t.closed, t.initiateDone
+	}
+	select {
+	case <-a:
+		select {
+		case <-b:
+			return true
+		default:
+		}
+	default:
+	}
+	return false
 }
 
 func (r *c09Run) fail(sig, f string, a ...any) {
@@ -128,6 +266,7 @@ func (r *c09Run) creator(wi int, w c09Worker) {
 		}
 		var tb Tube
 		var err error
+		bornAt := r.p.Net.Elapsed()
 		if w.Rel {
 			tb, err = m.CreateReliableTube(TubeType(g.Type))
 		} else {
@@ -139,12 +278,15 @@ func (r *c09Run) creator(wi int, w c09Worker) {
 		id := tb.GetID()
 		key := c09Key(w.Side, wi, gi)
 		r.mu.Lock()
-		if other, dup := r.live[w.Side][relIdx][id]; dup {
+		// (the holder's own bookkeeping below may lag behind the muxer's reaper: what counts is whether its tube is closed)
+		if other, dup := r.live[w.Side][relIdx][id]; dup && !c09Closed(other.tb) {
 			r.mu.Unlock()
-			r.fail("C09:duplicate-local-id", "%s got tube id %d (reliable=%v) while %s still holds it", key, id, w.Rel, other)
+			r.fail("C09:duplicate-local-id", "%s got tube id %d (reliable=%v) while %s still holds it (its tube is not closed)", key, id, w.Rel, other.key)
 			return
 		}
-		r.live[w.Side][relIdx][id] = key
+		r.live[w.Side][relIdx][id] = c09Live{key, tb}
+		r.idOf[key] = id
+		r.born[id] = append(r.born[id], bornAt)
 		r.mu.Unlock()
 		wantParity := byte(1 - w.Side) // A is the client muxer (odd ids), B the server muxer (even ids)
 		if id%2 != wantParity {
@@ -164,7 +306,8 @@ func (r *c09Run) creator(wi int, w c09Worker) {
 			rt.SetReadDeadline(time.Now().Add(90 * time.Second))
 			n, err := io.ReadFull(rt, got)
 			if n > 0 && !bytes.Equal(got[:n], want[:n]) {
-				r.fail("C09:foreign-bytes-on-reliable-tube:creator-side", "%s (id %d): reply bytes are not what the acceptor of this incarnation wrote (%s)", key, id, c09Whose(got[:n]))
+				d := c09Diff(got[:n], want)
+				r.failContent("C09:foreign-bytes-on-reliable-tube:creator-side", true, id, key, got[d:n], [][]byte{got[:n]}, "%s (id %d): reply bytes are not what the acceptor of this incarnation wrote (from offset %d: %s)", key, id, d, c09Whose(got[d:n]))
 				return
 			}
 			_ = err
@@ -190,7 +333,9 @@ func (r *c09Run) creator(wi int, w c09Worker) {
 		case <-time.After(60 * time.Second):
 		}
 		r.mu.Lock()
-		delete(r.live[w.Side][relIdx], id)
+		if cur, ok := r.live[w.Side][relIdx][id]; ok && cur.key == key {
+			delete(r.live[w.Side][relIdx], id)
+		}
 		r.mu.Unlock()
 	}
 }
@@ -228,7 +373,7 @@ func (r *c09Run) handle(side int, tb Tube) {
 		}
 		h, ok := c09Parse(hb)
 		if !ok {
-			r.fail("C09:foreign-bytes-on-reliable-tube:no-header", "accepted reliable tube id %d starts with bytes nobody wrote as a stream start", tb.GetID())
+			r.failContent("C09:foreign-bytes-on-reliable-tube:no-header", true, tb.GetID(), "", hb, nil, "accepted reliable tube id %d starts with bytes nobody wrote as a stream start", tb.GetID())
 			return
 		}
 		key := c09Key(h.side, h.worker, h.gen)
@@ -247,7 +392,8 @@ func (r *c09Run) handle(side int, tb Tube) {
 		body := make([]byte, h.ln)
 		k, _ := io.ReadFull(rt, body)
 		if want := vlib.Fill(h.seed, h.ln); !bytes.Equal(body[:k], want[:k]) {
-			r.fail("C09:foreign-bytes-on-reliable-tube:acceptor-side", "incarnation %s (id %d): body bytes are not what its creator wrote (%s)", key, tb.GetID(), c09Whose(body[:k]))
+			d := c09Diff(body[:k], want)
+			r.failContent("C09:foreign-bytes-on-reliable-tube:acceptor-side", true, tb.GetID(), key, body[d:k], nil, "incarnation %s (id %d): body bytes are not what its creator wrote (from offset %d: %s)", key, tb.GetID(), d, c09Whose(body[d:k]))
 			return
 		}
 		if k < h.ln {
@@ -257,7 +403,7 @@ func (r *c09Run) handle(side int, tb Tube) {
 		// nothing else may arrive before end-of-stream
 		extra := make([]byte, 256)
 		if k, err := rt.Read(extra); k > 0 {
-			r.fail("C09:foreign-bytes-on-reliable-tube:after-body", "incarnation %s (id %d): %d extra bytes after the complete body (%s), err %v", key, tb.GetID(), k, c09Whose(extra[:k]), err)
+			r.failContent("C09:foreign-bytes-on-reliable-tube:after-body", true, tb.GetID(), key, extra[:k], nil, "incarnation %s (id %d): %d extra bytes after the complete body (%s), err %v", key, tb.GetID(), k, c09Whose(extra[:k]), err)
 		}
 		return
 	}
@@ -279,7 +425,7 @@ func (r *c09Run) handle(side int, tb Tube) {
 		}
 		h, ok := c09Parse(buf[:n])
 		if !ok {
-			r.fail("C09:unreliable-delivers-unwritten-message:fragment-or-garbage", "unreliable tube id %d delivered %d bytes without a message header", tb.GetID(), n)
+			r.failContent("C09:unreliable-delivers-unwritten-message:fragment-or-garbage", false, tb.GetID(), "", buf[:n], nil, "unreliable tube id %d delivered %d bytes without a message header", tb.GetID(), n)
 			return
 		}
 		key := c09Key(h.side, h.worker, h.gen)
@@ -305,22 +451,30 @@ func (r *c09Run) handle(side int, tb Tube) {
 		} else if h.side != first.side || h.worker != first.worker || h.gen != first.gen {
 			kind := "other-tube"
 			if h.side == first.side && h.worker == first.worker {
-				kind = "other-incarnation-of-the-same-id"
+				kind = "other-incarnation-of-the-same-worker"
 			}
-			r.fail("C09:unreliable-delivers-foreign-message:"+kind, "the unreliable tube (id %d) accepted for %s delivered a message written on %s", tb.GetID(), c09Key(first.side, first.worker, first.gen), key)
+			r.failContent("C09:unreliable-delivers-foreign-message:"+kind, false, tb.GetID(), c09Key(first.side, first.worker, first.gen), buf[:n], nil, "the unreliable tube (id %d) accepted for %s delivered a message written on %s", tb.GetID(), c09Key(first.side, first.worker, first.gen), key)
 			return
 		}
 	}
 }
 
 func c09Scenario(c c09Case, v *vlib.Verdict) {
-	r := &c09Run{c: c, v: v, seen: map[string]int{}, opened: map[string]bool{}}
+	r := &c09Run{c: c, v: v, seen: map[string]int{}, opened: map[string]bool{}, idOf: map[string]byte{}, born: map[byte][]time.Duration{}, pkts: map[byte][]c09Pkt{}}
 	for s := 0; s < 2; s++ {
 		for k := 0; k < 2; k++ {
-			r.live[s][k] = map[byte]string{}
+			r.live[s][k] = map[byte]c09Live{}
 		}
 	}
 	r.p = vNewPair(c.AB, c.BA, 0)
+	r.p.Net.OnSend = func(dir int, pkt []byte, sent time.Duration, dlv []time.Duration) {
+		if len(pkt) == 0 || len(dlv) == 0 {
+			return
+		}
+		r.mu.Lock()
+		r.pkts[pkt[0]] = append(r.pkts[pkt[0]], c09Pkt{sent, dlv})
+		r.mu.Unlock()
+	}
 	go r.acceptor(0)
 	go r.acceptor(1)
 	for wi, w := range c.Workers {
@@ -337,15 +491,23 @@ func c09Scenario(c c09Case, v *vlib.Verdict) {
 	// on a faithful network every reliable incarnation that was opened must have been offered exactly once
 	faithful := c.AB.LossPct == 0 && c.BA.LossPct == 0 && len(c.AB.Outages) == 0 && len(c.BA.Outages) == 0 && c.AB.BurstLen == 0 && c.BA.BurstLen == 0
 	r.mu.Lock()
+	never := ""
 	if v.OK() && faithful {
 		for key := range r.opened {
-			if r.seen[key] == 0 {
-				v.Failf("C09:tube-never-offered", "reliable incarnation %s was opened and written on a loss-free network but never offered by Accept on the other side", key)
-				break
+			if r.seen[key] == 0 && (never == "" || key < never) {
+				never = key
 			}
 		}
 	}
+	neverID := r.idOf[never]
 	r.mu.Unlock()
+	if never != "" {
+		if why, ok := r.crossed(neverID); ok {
+			r.fail("C09:incarnations-of-one-id-confused:reliable", "[C09:tube-never-offered; %s] reliable incarnation %s (id %d) was opened and written on a loss-free network but never offered by Accept on the other side", why, never, neverID)
+		} else {
+			v.Failf("C09:tube-never-offered", "reliable incarnation %s was opened and written on a loss-free network but never offered by Accept on the other side", never)
+		}
+	}
 	// classification
 	reuse, concurrent := false, len(c.Workers) >= 2
 	for _, w := range c.Workers {
